@@ -20,6 +20,8 @@ var (
 	verifOutcome  map[string]bool
 	verifCallKeys []string // keys of the valid entries in index order, consumed per refresh call
 	verifCallPos  int
+	verifCancelID string
+	verifCancelFn func()
 )
 
 type verifEnv13 struct{}
@@ -29,6 +31,7 @@ func (*verifEnv13) close()             {}
 func (*verifEnv13) cacheDir() string   { return "/ghost/cache" }
 func (*verifEnv13) attach(s *Default)  {}
 func (*verifEnv13) setIndex(k []string) { verifIdxKeys = k }
+func (*verifEnv13) setCancelAt(id string, cancel func()) { verifCancelID, verifCancelFn = id, cancel }
 func (*verifEnv13) setOutcomes(ok map[string]bool) {
 	verifOutcome = ok
 	verifCallPos = 0
@@ -72,6 +75,10 @@ func verifNewRefreshable(c *refreshable.Config, cache rulelist.ResultCache) (*ru
 
 // verifListRefresh stands in for the download of one rule list.
 func verifListRefresh(rl *rulelist.Refreshable, ctx context.Context, acceptStale bool) error {
+	if verifCancelID != "" && verifListIDs[rl] == verifCancelID {
+		verifCancelFn()
+		return ctx.Err()
+	}
 	if verifOutcome[verifListIDs[rl]] {
 		return nil
 	}
